@@ -52,7 +52,7 @@ def generate(rng, tier):
         plan += [(s, "counts") for s in rng.sample(small, min(len(small), 2))]
     for s, prof in plan:
         for tag, data in R.mutations(rng, s, streams, prof):
-            cases.append(R.make_case(data, "01234", FLAVOUR, ORACLES, (tag, "mut:" + s.cls)))
+            cases.append(R.make_case(data, "01234", FLAVOUR, ORACLES, (tag, "mut:" + s.cls), base=s.data))
     return cases
 
 
